@@ -17,7 +17,8 @@ PARSE_CONTRACT = '''    #[cfg_attr(kani, kani::requires(raw_input.len() <= 64))]
 
 HARNESSES = {
     'C16': [('vp_kani::parse_contract', ['-Z', 'function-contracts'], 'C16.parse.iff/C16.parse.bytes (Kani function contract on the real NodeId::parse, slices <= 64 bytes)'),
-            ('vp_kani::identity', [], 'C16.identity.* (all 32-byte values: new/raw/as_ref/==/From/parse round trip)')],
+            ('vp_kani::identity', [], 'C16.identity.* (all 32-byte values: new/raw/as_ref/==/From/parse round trip)'),
+            ('vp_kani_serde::deserialize_exact', [], 'C16.serde.deserialize (BOUNDED: every ASCII string of <= 70 bytes): NodeId::deserialize is Ok exactly for 64 hex digits with or without one 0x prefix, and yields those bytes')],
 }
 
 
